@@ -1,4 +1,5 @@
 //! Conformance harness binding the TLA+ specification of indextree to the real crate.
+mod deep;
 mod print;
 mod record;
 mod replay;
@@ -82,6 +83,7 @@ fn main() {
                 roundtrip: flag(&args, "--roundtrip"),
                 after_clear: flag(&args, "--after-clear"),
                 with_capacity: arg(&args, "--with-capacity", "0").parse().unwrap(),
+                origin_mix: args.iter().any(|a| a == "--origin-mix"),
                 tracked: flag(&args, "--tracked"),
                 clone_bisim: flag(&args, "--clone-bisim"),
                 post_pulls: flag(&args, "--post-pulls"),
@@ -95,6 +97,7 @@ fn main() {
         }
         "record" => record::run(&args),
         "print" => print::run(&args),
+        "deep" => deep::run(&args),
         #[cfg(feature = "it_threads")]
         "threads" => threads::run(&args),
         "features" => {
